@@ -383,6 +383,11 @@ func GenData(kind string, size int, seed uint64) []byte {
 		if size > 0 && r.intn(2) == 0 { // one flipped byte breaks the last match
 			b[size-1-r.intn(min(size, 13))] ^= 0x55
 		}
+	case "tile": // a 1000-byte text-like tile repeated by doubling copies: cheap to make even for 2^27 bytes
+		i := copy(b, GenData("text", 1000, seed))
+		for i > 0 && i < size {
+			i += copy(b[i:], b[:i])
+		}
 	case "mixed": // compressible and incompressible stretches
 		i := 0
 		for i < size {
